@@ -25,10 +25,22 @@ func unfoldSupported(t reflect.Type, seen map[reflect.Type]bool) (bool, string) 
 		}
 		return true, ""
 	case reflect.Ptr, reflect.Slice:
+		if t.Name() != "" {
+			if seen[t] {
+				return true, "" // self-referential named type (type L []L)
+			}
+			seen[t] = true
+		}
 		return unfoldSupported(t.Elem(), seen)
 	case reflect.Map:
 		if t.Key().Kind() != reflect.String {
 			return false, "map key is not a string"
+		}
+		if t.Name() != "" {
+			if seen[t] {
+				return true, "" // type M map[string]M
+			}
+			seen[t] = true
 		}
 		return unfoldSupported(t.Elem(), seen)
 	case reflect.Array:
